@@ -64,11 +64,13 @@ func createQueueManagerWithMemFd(queuePathName string, queueCap uint32) (*queueM
 
 	memSize := countQueueMemSize(queueCap) * queueCount
 	if err := syscall.Ftruncate(memFd, int64(memSize)); err != nil {
+		_ = syscall.Close(memFd)
 		return nil, fmt.Errorf("createQueueManagerWithMemFd truncate share memory failed,%w", err)
 	}
 
 	mem, err := syscall.Mmap(memFd, 0, memSize, syscall.PROT_READ|syscall.PROT_WRITE, syscall.MAP_SHARED)
 	if err != nil {
+		_ = syscall.Close(memFd)
 		return nil, err
 	}
 	for i := 0; i < len(mem); i++ {
@@ -120,18 +122,22 @@ func createQueueManager(shmPath string, queueCap uint32) (*queueManager, error) 
 }
 
 func mappingQueueManagerMemfd(queuePathName string, memFd int) (*queueManager, error) {
+	// the descriptor was received from the peer for this queue manager: close it if none comes into being
 	var fileInfo syscall.Stat_t
 	if err := syscall.Fstat(memFd, &fileInfo); err != nil {
+		_ = syscall.Close(memFd)
 		return nil, err
 	}
 
 	mappingSize := int(fileInfo.Size)
 	//a queueManager have two queue, a queue's head and tail should align to 8 byte boundary
 	if isArmArch() && mappingSize%16 != 0 {
+		_ = syscall.Close(memFd)
 		return nil, fmt.Errorf("the memory size of queue should be a multiple of 16")
 	}
 	mem, err := syscall.Mmap(memFd, 0, mappingSize, syscall.PROT_READ|syscall.PROT_WRITE, syscall.MAP_SHARED)
 	if err != nil {
+		_ = syscall.Close(memFd)
 		return nil, err
 	}
 	return &queueManager{
